@@ -1,20 +1,21 @@
-(* C13SpillProofs.v — what Write(bits, n) does for EVERY n <= 64 (C13b): the pending bits that do not fit the 64-bit
+(* C13SpillProofs.v — what Write(bits, n) does for EVERY n (C13b): the pending bits that do not fit the 64-bit
    accumulator beside the n new bits are replaced by zeros; nothing else changes.  With pending + n <= 64 nothing
    is lost (C13WideProofs.write_gen_fit is the special case). *)
 From V.lib Require Import Base.
 From V.c13 Require Import C13Spec C13Model C13Bits C13EscProofs C13WriterProofs.
 
 Lemma write_acc_bits_any wn0 wv0 bits n :
-  (n <= 64)%nat ->
   bits_of (wn0 + n)
     (N.lor (u64 (N.shiftl wv0 (N.of_nat n))) (N.land bits (N.ones (N.of_nat n))))
   = bits_of wn0 (wv0 mod 2 ^ (64 - N.of_nat n)) ++ bits_of n bits.
 Proof.
-  intros Hn. apply bits_of_app_ext.
+  apply bits_of_app_ext.
   - intros i Hi. rewrite N.lor_spec, N.land_spec, N.ones_spec_low by lia.
     unfold u64. change 18446744073709551616 with (2 ^ 64).
-    rewrite N.mod_pow2_bits_low by lia. rewrite N.shiftl_spec_low by lia.
-    cbn [orb]. apply andb_true_r.
+    rewrite andb_true_r.
+    destruct (N.lt_ge_cases i 64) as [H64|H64].
+    + rewrite N.mod_pow2_bits_low by lia. rewrite N.shiftl_spec_low by lia. reflexivity.
+    + rewrite N.mod_pow2_bits_high by lia. reflexivity.
   - intros i Hi. rewrite N.lor_spec, N.land_spec, N.ones_spec_high by lia.
     rewrite andb_false_r, orb_false_r.
     unfold u64. change 18446744073709551616 with (2 ^ 64).
@@ -25,14 +26,14 @@ Proof.
 Qed.
 
 Lemma write_gen_any esc s raw bits n :
-  WInv esc s raw -> n <= 64 ->
+  WInv esc s raw ->
   exists raw',
     WInv esc (write_gen esc s bits n) raw' /\
     bytes_to_bits raw' ++ pending (write_gen esc s bits n)
     = bytes_to_bits raw ++ bits_of (N.to_nat (wn s)) (wv s mod 2 ^ (64 - n)) ++ bits_of (N.to_nat n) bits /\
     exists added, raw' = raw ++ added /\ Forall (fun b => b < 256) added.
 Proof.
-  intros [Hn [Hraw Hout]] Hw.
+  intros [Hn [Hraw Hout]].
   unfold write_gen.
   set (V := N.lor (u64 (N.shiftl (wv s) n)) (N.land bits (N.ones n))).
   set (T := (N.to_nat (wn s) + N.to_nat n)%nat).
@@ -41,7 +42,7 @@ Proof.
   rewrite drain_spec.
   assert (HV : bits_of T V = bits_of (N.to_nat (wn s)) (wv s mod 2 ^ (64 - n)) ++ bits_of (N.to_nat n) bits).
   { unfold V, T.
-    pose proof (write_acc_bits_any (N.to_nat (wn s)) (wv s) bits (N.to_nat n) ltac:(lia)) as HH.
+    pose proof (write_acc_bits_any (N.to_nat (wn s)) (wv s) bits (N.to_nat n)) as HH.
     rewrite N2Nat.id in HH. exact HH. }
   pose proof (chunk8_concat fuel (bits_of T V)) as Hcat.
   pose proof (chunk8_rest_short fuel (bits_of T V)) as Hshort.
@@ -71,11 +72,10 @@ Qed.
 
 (* the zeroed bits are exactly the topmost pending + n - 64 pending bits *)
 Lemma pending_truncated wn0 wv0 n :
-  n <= 64 ->
   bits_of wn0 (wv0 mod 2 ^ (64 - n))
   = repeat false (wn0 - N.to_nat (64 - n)) ++ bits_of (Nat.min wn0 (N.to_nat (64 - n))) wv0.
 Proof.
-  intros Hn. set (c := N.to_nat (64 - n)).
+  set (c := N.to_nat (64 - n)).
   destruct (Nat.le_gt_cases wn0 c) as [Hle|Hgt].
   - replace (wn0 - c)%nat with 0%nat by lia. rewrite Nat.min_l by exact Hle. cbn [repeat app].
     apply bits_of_ext. intros i Hi. apply N.mod_pow2_bits_low. unfold c in Hle. lia.
